@@ -9,7 +9,10 @@ Lemma C03_facts_ok :
   save_every_ready = Known true /\
   (* a durable change of the log store is one write batch: the crash points of the model (before / after a Save or a
      local snapshot + compaction) are the only ones there are *)
-  wal_calls_one_batch = Known true.
+  wal_calls_one_batch = Known true /\
+  (* a restarted replica is handed every committed entry after its snapshot again: the raft node is configured with
+     the stored log as it is (no Applied index set) *)
+  raft_config_shape = Known true.
 Proof. repeat split; reflexivity. Qed.
 
 (* (1) persist before acknowledge: an entry is applied — the proposer's outcome is delivered inside the apply — only
